@@ -47,6 +47,33 @@ func c16Desc(spec sys.StoreSpec, seq []int) c16Case {
 	return cas
 }
 
+// c16Monitor is a monitor attached to the message hub from the start.
+type c16Monitor struct {
+	mu      sync.Mutex
+	stored  map[string]int
+	deleted map[string]int
+}
+
+func (m *c16Monitor) Receive(msg event.MessageMetadata) error {
+	m.mu.Lock()
+	defer m.mu.Unlock()
+	if m.stored == nil {
+		m.stored, m.deleted = map[string]int{}, map[string]int{}
+	}
+	m.stored[msg.Mailbox+"/"+msg.ID]++
+	return nil
+}
+
+func (m *c16Monitor) Delete(mailbox, id string) error {
+	m.mu.Lock()
+	defer m.mu.Unlock()
+	if m.stored == nil {
+		m.stored, m.deleted = map[string]int{}, map[string]int{}
+	}
+	m.deleted[mailbox+"/"+id]++
+	return nil
+}
+
 type evRec struct {
 	mu      sync.Mutex
 	stored  []string
@@ -58,11 +85,15 @@ func c16Exec(c *fw.Ctx, spec sys.StoreSpec, seq []int, from int) (key string, ex
 	cas := c16Desc(spec, seq)
 	extend = true
 	leaked := sys.InBubble(c.T, func() {
-		s := sys.New(sys.Spec{Store: spec, SMTP: sys.DefaultSMTP()})
+		// the message hub remembers a single message: every other one has rotated out of its history
+		// by the time it is removed, and a monitor attached all along must be told all the same
+		s := sys.New(sys.Spec{Store: spec, SMTP: sys.DefaultSMTP(), History: 1})
 		defer s.Close()
 		ctx, cancel := context.WithCancel(context.Background())
 		go s.Hub.Start(ctx)
 		defer func() { cancel(); sys.BubbleWait() }()
+		monitor := &c16Monitor{}
+		s.Hub.AddListener(monitor)
 		rec := &evRec{}
 		s.Ext.Events.AfterMessageStored.AddListener("verif", func(m event.MessageMetadata) {
 			rec.mu.Lock()
@@ -262,6 +293,21 @@ func c16Exec(c *fw.Ctx, spec sys.StoreSpec, seq []int, from int) (key string, ex
 					fail("stored-missing", "message "+x+" is in the store but no 'stored' event was emitted")
 				}
 			}
+			// what the extension saw, the attached monitor saw too (through the hub)
+			monitor.mu.Lock()
+			for x := range sset {
+				if monitor.stored[x] != 1 {
+					fail("monitor-stored-count", fmt.Sprintf("the monitor attached to the message hub was told %d times that %s was stored (the extension: once)", monitor.stored[x], x))
+					break
+				}
+			}
+			for x := range dset {
+				if monitor.deleted[x] != 1 {
+					fail("monitor-deleted-count", fmt.Sprintf("the monitor attached to the message hub was told %d times that %s was deleted (the extension: once; the hub remembers 1 message)", monitor.deleted[x], x))
+					break
+				}
+			}
+			monitor.mu.Unlock()
 			if !extend {
 				break
 			}
